@@ -48,13 +48,13 @@ def expected(case):
             o = kw[i] if kind in ('1d', '2d') else kw
             r = ref_slice(sigs[i], fs, fr, o, rs)
             for j in range(n1):
-                out[i][j] = r[j]
+                out[i][j] = r[j] if len(r) == n1 else None          # a reference of the wrong length decides nothing (shape checked below)
     else:
         for j in range(n1):
             o = kw[j] if kind == '1d' else ([kw[i][j] for i in range(n0)] if kind == '2d' else kw)
             r = ref_slice(sigs[:, j], fs, fr, o, rs)
             for i in range(n0):
-                out[i][j] = r[i]
+                out[i][j] = r[i] if len(r) == n0 else None
     return out
 
 
@@ -198,9 +198,14 @@ def run_one(sh, case, driver='generated'):
             vs.append({'mechanism': 'result-shape', 'message': 'nested list %s for array (%d, %d)'
                                                                % ([len(r) for r in res], n0, n1)})
         else:
-            flat_exp = [(i, j, exp[i][j]) for i in range(n0) for j in range(n1)]
+            flat_exp = [(i, j, exp[i][j]) for i in range(n0) for j in range(n1) if exp[i][j] is not None]
             for i in range(n0):
                 for j in range(n1):
+                    if exp[i][j] is None:
+                        sh.note('reference_slice_of_the_wrong_length')
+                        continue
+                    if len(exp[i][j]) == 0:
+                        sh.note('entries_for_epochs_without_cycles')
                     d = poollog.tables_equal(res[i][j], exp[i][j])
                     if d is not None:
                         found = [(a, b) for a, b, t in flat_exp if poollog.tables_equal(res[i][j], t) is None]
@@ -268,12 +273,14 @@ def put(kw, idx, val):
     kw[idx[-1]] = val
 
 
-def make_case(rng, shape=None, axis=None, kind=None, noalias=False, sparse=False):
+def make_case(rng, shape=None, axis=None, kind=None, noalias=False, sparse=False, short_rows=False):
     fs, lo, hi = gen.gen_config(rng, small=True)
     if shape is None:
         shape = (int(rng.integers(1, 5)), int(rng.integers(1, 5)))
     n0, n1 = shape
     nsamp = int(fs * rng.uniform(1.2, 2.2))
+    if short_rows:
+        nsamp = max(6, int(rng.uniform(0.45, 0.8) * fs / hi))          # shorter than one cycle: some epochs of a flattened slice hold no cycle
     rows = gen_rows(rng, n0 * n1, nsamp, fs, lo, hi)
     sigs = rows.reshape(n0, n1, nsamp)
     if rng.random() < 0.2:
@@ -357,6 +364,15 @@ def run(sh):
         if (len(classes) + 2 + i) % sh.nshards == sh.shard:
             c = make_case(rng, shape=shape, axis=ax, kind='1d', noalias=True, sparse=True)
             sh.note('per_slice_list_with_entries_that_omit_settings')
+            guarded(sh, run_one, sh, c, 'class_cover')
+    # in every run: slices whose rows are shorter than one cycle (epochs without cycles keep their place in the nested list)
+    for i, (shape, ax, k) in enumerate([((2, 11), 0, 'dict'), ((12, 2), 1, 'none'), ((3, 10), 0, '1d'), ((10, 3), 1, 'dict')]):
+        if (len(classes) + 4 + i) % sh.nshards == sh.shard:
+            c = make_case(rng, shape=shape, axis=ax, kind=k, noalias=True, short_rows=True)
+            c['refit_from'] = None
+            if i == 3:
+                c['api'] = 'obj'
+            sh.note('slices_with_rows_shorter_than_one_cycle')
             guarded(sh, run_one, sh, c, 'class_cover')
     # every shard: a group object that receives its options through its attributes
     c = make_case(rng, shape=[(2, 2), (2, 3), (3, 2), (1, 3)][sh.shard % 4], axis=[0, 1, (0, 1)][sh.shard % 3], kind='dict')
